@@ -594,7 +594,8 @@ pub fn run(ctx: &Ctx, sh: &mut Shard) {
         match k % 8 {
             6 => {
                 // unary_union of a consistently wound collection (members may overlap)
-                let n = r.range(2, if ctx.tier == "thorough" { 12 } else { 6 });
+                // (from a single member on: a collection that contributes one ring in total is a legitimate input too)
+                let n = r.range(1, if ctx.tier == "thorough" { 12 } else { 6 });
                 let mut ms = vec![];
                 for _ in 0..n {
                     let k2 = *r.pick(&["Polygon", "Polygon", "PolygonHoles"]);
